@@ -170,7 +170,7 @@ func coqType(ty types.Type) (string, bool) {
 	case isPairs(ty):
 		return "list (Z * Z)", true
 	case isErrorType(ty):
-		return "go_error", true
+		return "go_err", true
 	case isBoolean(ty):
 		return "bool", true
 	case isInteger(ty):
@@ -204,8 +204,8 @@ func (t *fnTr) zero(n ast.Node, ty types.Type) string {
 		return "(0, 0)"
 	case "list (Z * Z)":
 		return "(@nil (Z * Z))"
-	case "go_error":
-		return "GoNil"
+	case "go_err":
+		return "ENil"
 	}
 	return "?"
 }
@@ -956,32 +956,25 @@ func (t *fnTr) exprAs(e ast.Expr, target types.Type) string {
 // type error, or a package-level error variable (decided syntactically, the
 // declaring package need not be importable).
 func (t *fnTr) errExpr(e ast.Expr) string {
+	// Errors are the constructors of the enumeration go_err that the front end emits: ENil and one
+	// E_<name> per package-level error variable (= error site class) of the synthesized file.  No Coq
+	// string is involved, so the translated functions extract without Coq's String module.
 	switch x := unparen(e).(type) {
 	case *ast.Ident:
 		switch o := t.u.info.Uses[x].(type) {
 		case *types.Nil:
-			return "GoNil"
+			return "ENil"
 		case *types.Var:
 			if n, ok := t.names[o]; ok {
 				if isErrorType(o.Type()) {
 					return n
 				}
-			} else if o.Parent() == t.u.pkg.Scope() {
-				return "(GoErr " + coqString(x.Name) + ")"
-			}
-		}
-	case *ast.SelectorExpr:
-		if id, ok := x.X.(*ast.Ident); ok {
-			if pn, ok := t.u.info.Uses[id].(*types.PkgName); ok {
-				// A value of type error selected from a package can only be a variable.
-				switch t.u.info.Uses[x.Sel].(type) {
-				case nil, *types.Var:
-					return "(GoErr " + coqString(path.Base(pn.Imported().Path())+"."+x.Sel.Name) + ")"
-				}
+			} else if o.Parent() == t.u.pkg.Scope() && isErrorType(o.Type()) {
+				return "E_" + x.Name
 			}
 		}
 	}
-	return t.fail(e, "error value that is neither nil nor a package-level variable")
+	return t.fail(e, "error value that is neither nil nor a package-level variable of the file")
 }
 
 func (t *fnTr) expr(e ast.Expr) string {
